@@ -33,7 +33,30 @@ BINARY = [('concat', '{0}.concat({1})'), ('either', '{0}.either({1})'), ('follow
           ('or', '({0} | {1}) if hasattr({0}, "_get_verbose_pattern") and hasattr({1}, "_get_verbose_pattern") else {0}.concat({1}, on_right=False)')]
 STATEFUL = [('compile', '{0}.compile()'), ('gcp_keep', '{0}.get_compiled_pattern(False)'), ('gcp_discard', '{0}.get_compiled_pattern(True)'),
             ('has_match', "{0}.has_match('ab1c')"), ('get_matches', "{0}.get_matches('ab1c')"), ('replace', "{0}.replace('ab1c', 'X')"),
-            ('captures', "{0}.get_captures_and_pos('ab1c')")]
+            ('captures', "{0}.get_captures_and_pos('ab1c')"),
+            ('file', "{0}.get_matches(__import__('mc.props.c20', fromlist=['x']).sample_file(), is_path=True)")]
+_SAMPLE = None
+
+
+def sample_file():
+    """a small UTF-8 file with fixed content (created atomically on demand in the temp dir)"""
+    global _SAMPLE
+    content = 'ab1c\nca ab'
+    if _SAMPLE is None or not os.path.exists(_SAMPLE):
+        path = os.path.join(tempfile.gettempdir(), 'mc_c20_sample_ab1c.txt')
+        try:
+            okay = open(path, encoding='utf-8').read() == content
+        except OSError:
+            okay = False
+        if not okay:
+            tmp = path + '.%d' % os.getpid()
+            with open(tmp, 'w', encoding='utf-8') as fh:
+                fh.write(content)
+            os.replace(tmp, path)
+        _SAMPLE = path
+    return _SAMPLE
+
+
 TEXTS = ['', 'a', 'b', 'c', 'ab', 'ca', '1', 'a1', 'cab', 'AB', 'aa', 'bc1', 'cc']
 
 
@@ -41,7 +64,7 @@ def events(n_pool, reduced):
     ev = []
     un = UNARY[:5] if reduced else UNARY
     bi = BINARY[:3] if reduced else BINARY
-    st = STATEFUL[:4] if reduced else STATEFUL
+    st = (STATEFUL[:3] + STATEFUL[-1:]) if reduced else STATEFUL
     for i in range(n_pool):
         for name, t in un:
             ev.append(('u', name, t, (i,)))
@@ -57,6 +80,11 @@ def events(n_pool, reduced):
 
 def behaviour(o):
     out = []
+    try:
+        out.append(o.get_matches_and_pos(sample_file(), is_path=True))
+        out.append(o.split_by_match(sample_file(), is_path=True))
+    except Exception as e:  # noqa: BLE001
+        out.append(('raise', type(e).__name__))
     for t in TEXTS:
         try:
             out.append((o.get_matches_and_pos(t), o.is_exact_match(t)))
@@ -286,7 +314,14 @@ def canonical_exprs(run):
     cls += [f"~({c})" for c in reg + neg] + ORDER_EXTRA + reg + neg
     cls += [f"AnyFrom({a!r}, {b!r}, {c!r})" for a, b, c in itertools.permutations(['\\', ']', '[', '^', '-', 'a', '$'], 3)]
     lits = ['Pregex(%r)' % s for s in al.all_literals()[::3]]
-    return exprs + cls + lits
+    from . import hd
+    meta = []
+    for pid in ('C15', 'C16', 'C17', 'C18', 'C19', 'C10'):
+        e = hd.exprs_for(pid, run.tier)
+        meta += e[:: max(1, len(e) // 400)]
+    meta += ["Date(['d/m/yy', 'd/m/yyyy'], is_extensible=True)", "Date(['dd-mm-yyyy', 'd-m-yy', 'mm/dd/yy'])", "Email()", "HttpUrl()",
+             "Email(True, True)", "WordContains(['ab', 'a', 'b'])", "WordStartsWith(['x', 'xy', 'y'])", "IPv4()", "IPv6()"]
+    return exprs + cls + lits + meta
 
 
 def equivalent_texts(a, b):
